@@ -32,6 +32,8 @@ M = [
  ('call sent before Hello is not forwarded', 'C14', 'a non-Hello first call caused loseConnection but was still forwarded'),
  ('delivers an addressed message to its destination only', 'C14', 'unicast messages were also routed through the match rules: third parties with a matching rule received them, the destination twice'),
  ('ties match rules to the connection', 'C14', 'match rules were never associated with their connection (survived disconnects) and RemoveMatch was not implemented'),
+ ("GetManagedObjects on '/' does not list", 'C16', "GetManagedObjects('/') listed the root object itself (introduced by the first prefix repair, corrected at once)"),
+ ('accepts the empty match rule', 'C12', "AddMatch('') - the rule without constraints - raised ValueError in the bus rule parser"),
  ('RequestName queues a requester', 'C13', 'request without the replace flag refused instead of queued; a waiting client requesting again queued twice'),
  ('waiting for a name leaves the queue', 'C13', 'ReleaseName by a queued client answered NOT_OWNER and left it queued; a queued client that disconnected later became a dead owner'),
 ]
